@@ -248,6 +248,9 @@ theorem ginv_step {st : FES.State × Handles} {h : Hist} (g : GInv st.1 h) (op :
             rcases List.mem_append.mp hx with hx | hx
             · exact Nat.le_trans (g.fetLe x hx) (g.pendT _ hmem)
             · simp at hx; subst hx; exact Nat.le_refl _
+  | peek =>
+    simp only [sstep, ghostAdd, ghostFetch, ghostCancel, List.append_nil]
+    exact g
 
 theorem ginv_histFrom (ops : List Op) : ∀ (st : FES.State × Handles) (h : Hist), GInv st.1 h →
     GInv (histFrom st h ops).1.1 (histFrom st h ops).2 := by
@@ -295,5 +298,6 @@ theorem histFrom_fetched (ops : List Op) : ∀ (st : FES.State × Handles) (h : 
       cases hf : FES.fetch st.1 with
       | error e => simp [fetchedOuts]
       | ok p => simp [fetchedOuts]
+    | peek => simp [ghostFetch, sstep, fetchedOuts]
 
 end CQRun
